@@ -802,10 +802,11 @@ func c07Judge(ss *servedSet, f *glf.Filter, start, limit uint64, blocks []eth.Bl
 			if sb == nil {
 				return fmt.Sprintf("block %d returned but never served", blocks[i].Num())
 			}
-			if hx(blocks[i].Hash()) != sb["hash"] {
+			// (a header served with something that is not a 32-byte hash supplies no hash: the logs may)
+			if len(fmt.Sprint(sb["hash"])) == 66 && hx(blocks[i].Hash()) != sb["hash"] {
 				return fmt.Sprintf("block %d returned with hash %x, served %v", blocks[i].Num(), blocks[i].Hash(), sb["hash"])
 			}
-			if hx(blocks[i].Header.Parent) != sb["parentHash"] {
+			if len(fmt.Sprint(sb["parentHash"])) == 66 && hx(blocks[i].Header.Parent) != sb["parentHash"] {
 				return fmt.Sprintf("block %d returned with parent %x, served %v", blocks[i].Num(), blocks[i].Header.Parent, sb["parentHash"])
 			}
 			if i > 0 && !bytes.Equal(blocks[i].Header.Parent, blocks[i-1].Hash()) {
